@@ -17,7 +17,7 @@ use vh::wire::{self, Fti};
 #[global_allocator]
 static GLOBAL: alloc::Counting = alloc::Counting;
 
-const CLASSES: [&str; 7] = ["tiny", "short", "subst", "field_fti", "field_misc", "fdtxml", "sequence"];
+const CLASSES: [&str; 8] = ["tiny", "short", "subst", "field_fti", "field_fti_any", "field_misc", "fdtxml", "sequence"];
 
 struct World {
     seed: u64,
@@ -34,11 +34,16 @@ fn class_size(w: &World, class: &str) -> u64 {
             w.corpus.iter().map(|c| subst_positions(c, w.thorough).len() as u64 * reps).sum::<u64>().div_ceil(SUBST_BATCH)
         }
         "field_fti" => w.corpus.iter().map(|c| fti_extremes(obj_fec(c)).len() as u64 * 2).sum(),
+        "field_fti_any" => w.corpus.len() as u64 * fti_any_per(w),
         "field_misc" => w.corpus.len() as u64 * MISC_EDITS,
         "fdtxml" => w.corpus.len() as u64 * if w.thorough { 400 } else { 40 },
         "sequence" => if w.thorough { 200_000 } else { 6000 },
         _ => 0,
     }
+}
+
+fn fti_any_per(w: &World) -> u64 {
+    if w.thorough { 3000 } else { 180 }
 }
 
 const SUBST_BATCH: u64 = 1;
@@ -214,6 +219,39 @@ fn gen_seq(w: &World, class: &str, k: u64) -> Option<(Value, u64, Vec<Vec<u8>>)>
                 idx -= n;
             }
             None
+        }
+        // EXT_FTI extremes of EVERY scheme id (also the ones the session does not use and the one flute does
+        // not implement, FEC 2 with its m / G word), with the codepoint and payload id rewritten to match,
+        // on the FDT packets (TOI 0) or on the object packets
+        "field_fti_any" => {
+            let per = fti_any_per(w);
+            let c = w.corpus.get((k / per) as usize)?;
+            let j = k % per;
+            let fec = [0u8, 1, 2, 5, 6, 129][(j % 6) as usize];
+            let ex = fti_extremes(fec);
+            let f = if fec == 2 && (j / 6) % 2 == 0 {
+                let sweep: Vec<&Fti> = ex.iter().filter(|f| !matches!(f.m, Some(0) | Some(8))).collect();
+                (*sweep[rng.below(sweep.len() as u64) as usize]).clone()
+            } else {
+                ex[rng.below(ex.len() as u64) as usize].clone()
+            };
+            let on_fdt = (j / 12) % 2 == 0;
+            let (_, fp) = first_obj_pkt(c);
+            let toi = fp.toi();
+            let mut seq = vec![];
+            for p in c.em.stream.iter() {
+                let hit = if on_fdt { p.toi() == 0 } else { p.toi() == toi };
+                if hit {
+                    let mut r = Rebuild::from(p);
+                    r.lct.cp = fec;
+                    r.set_ext(wire::HET_FTI, Some(wire::ext_fti(&f)));
+                    r.pid = wire::payload_id(fec, p.dec.sbn, p.dec.esi, p.dec.sbl.unwrap_or(f.b as u16), f.m.unwrap_or(8));
+                    seq.push(r.encode());
+                } else {
+                    seq.push(p.bytes.clone());
+                }
+            }
+            Some((json!({"class": "field_fti_any", "session": c.name, "fti": format!("{:?}", f), "on_fdt": on_fdt}), c.em.spec.tsi, seq))
         }
         "field_misc" => {
             let c = &w.corpus[(k / MISC_EDITS) as usize];
@@ -706,7 +744,7 @@ fn main() {
     let prop = Property {
         id: "C04",
         level: "exploration",
-        rule: "hostile packet sequences in crash-isolated children: (tiny) every byte string of length <= 3; (short) enumerated first-word combinations at lengths 4..40; (subst) every single-byte substitution over the header region of corpus packets (8 representative values quick / all 255 thorough); (field_fti) per-scheme EXT_FTI extremes on object packets, FDT first and object first; (field_misc) payload-id, payload-size, codepoint, flag, HDR_LEN, HEL, EXT_FDT, EXT_TIME, EXT_CENC, FDT-FTI, TOI-class edits through the independent encoder; (fdtxml) FDT XML attribute rewriting / truncation / duplication / nesting / entities / noise wrapped into FDT packets; (sequence) seeded flip/truncate/extend/splice/repeat/drop/swap sequences over whole sessions. Each sequence is followed by two probe sessions. Oracle: every push returns, no panic, no step-budget trip, per-call heap growth <= 48 MiB with a 1 MiB cache, no single request > 256 MiB, probes delivered. A case is one shard of one class; distinct = shards that executed pushes; monitor states = distinct error-message kinds reached",
+        rule: "hostile packet sequences in crash-isolated children: (tiny) every byte string of length <= 3; (short) enumerated first-word combinations at lengths 4..40; (subst) every single-byte substitution over the header region of corpus packets (8 representative values quick / all 255 thorough); (field_fti) per-scheme EXT_FTI extremes on object packets, FDT first and object first; (field_fti_any) EXT_FTI extremes of every scheme id incl. FEC 2 with its m/G word, codepoint and payload id rewritten to match, on the FDT packets or on the object packets; (field_misc) payload-id, payload-size, codepoint, flag, HDR_LEN, HEL, EXT_FDT, EXT_TIME, EXT_CENC, FDT-FTI, TOI-class edits through the independent encoder; (fdtxml) FDT XML attribute rewriting / truncation / duplication / nesting / entities / noise wrapped into FDT packets; (sequence) seeded flip/truncate/extend/splice/repeat/drop/swap sequences over whole sessions. Each sequence is followed by two probe sessions. Oracle: every push returns, no panic, no step-budget trip, per-call heap growth <= 48 MiB with a 1 MiB cache, no single request > 256 MiB, probes delivered. A case is one shard of one class; distinct = shards that executed pushes; monitor states = distinct error-message kinds reached",
         assumptions: vec![
             "probe sessions use a TOI, FDT instance id and TSI that the hostile sequence did not use".into(),
             "allocation numbers come from the harness's counting allocator in a single-threaded child; the monitoring writer keeps at most 4 KiB per writer".into(),
